@@ -32,6 +32,10 @@ def Sent (ck : Bool) (src dst : Endpoint) (payload wire : Bytes) : Prop :=
   ∃ (b : Ipv4.Builder) (ih uh : Bytes),
     b.Wf ∧ b.protocol = 17 ∧ b.source = src.addr ∧ b.destination = dst.addr ∧
     b.fragmentOffset = 0 ∧ Elvis.Frag.isLast b.flags = true ∧
+    -- `Ipv4HeaderBuilder::new(.., length as u16)` with `length` = the octets of the UDP datagram:
+    -- the total length is that of the frame (a receiver cuts the frame at the total length and drops
+    -- a frame that is shorter, fix F-C14-S3)
+    b.payloadLength = 8 + payload.length ∧
     (Udp.Dgram.mk src.addr src.port dst.addr dst.port payload).Wf ∧
     Ipv4.build ck b = .ok ih ∧
     Udp.build ck src.addr src.port dst.addr dst.port payload payload.length = .ok uh ∧
@@ -42,8 +46,9 @@ theorem sent_decodes {ck : Bool} {src dst : Endpoint} {payload wire : Bytes} (h 
     ∃ hd uh, Ipv4.fromBytes ck wire = .ok hd ∧ hd.source = src.addr ∧ hd.destination = dst.addr ∧
       hd.protocol = 17 ∧ (Elvis.Frag.isLast hd.flags && hd.fragmentOffset == 0) = true ∧
       Udp.fromBytes ck (wire.drop 20) (wire.drop 20).length hd.source hd.destination = .ok uh ∧
-      uh.source = src.port ∧ uh.destination = dst.port ∧ (wire.drop 20).drop 8 = payload := by
-  obtain ⟨b, ih, uh, hb, hp, hs, hd, hfo, hlast, hdw, hbi, hbu, rfl⟩ := h
+      uh.source = src.port ∧ uh.destination = dst.port ∧ (wire.drop 20).drop 8 = payload ∧
+      hd.totalLength = wire.length := by
+  obtain ⟨b, ih, uh, hb, hp, hs, hd, hfo, hlast, hpl, hdw, hbi, hbu, rfl⟩ := h
   obtain ⟨ih', e1, l1, dec1⟩ := Ipv4.c08_ipv4_build_decode ck b hb (uh ++ payload)
   rw [hbi] at e1; cases e1
   obtain ⟨uh', e2, l2, dec2⟩ := Udp.c08_udp_decode_encode ck ⟨src.addr, src.port, dst.addr, dst.port, payload⟩ hdw
@@ -53,17 +58,20 @@ theorem sent_decodes {ck : Bool} {src dst : Endpoint} {payload wire : Bytes} (h 
     rw [← l1, List.drop_left]
   have hlen : (uh ++ payload).length = 8 + payload.length := by simp [l2]
   refine ⟨b.header ck, (Udp.Dgram.mk src.addr src.port dst.addr dst.port payload).header ck, dec1,
-    hs, hd, hp, ?_, ?_, rfl, rfl, ?_⟩
+    hs, hd, hp, ?_, ?_, rfl, rfl, ?_, ?_⟩
   · simp [Ipv4.Builder.header, hlast, hfo]
   · rw [hdrop, hlen]
     simp only [Ipv4.Builder.header, hs, hd]
     exact dec2
   · rw [hdrop, ← l2, List.drop_left]
+  · simp only [Ipv4.Builder.header, hpl, List.length_append, l1, l2]
+    omega
 
 /-- `Ipv4::demux` on a whole datagram whose header decodes, up to the binding lookup -/
 theorem ipv4Demux_whole {env : Env} {m : Machine} {lk : Link} {bytes : Bytes} {hd : Ipv4.Header}
     (hdec : Ipv4.fromBytes env.ck bytes = .ok hd)
     (hw : (Elvis.Frag.isLast hd.flags && hd.fragmentOffset == 0) = true)
+    (harr : hd.totalLength ≤ bytes.length)
     (hnone : ipv4Upstream m.dm hd.destination (protoNumber hd.protocol) = none) :
     ipv4Demux env m lk bytes = .ok (dropped m .missingSession [pidIpv4]) := by
   obtain ⟨hihl, hlen, htl, htl2, _⟩ := ipv4_ok_facts hdec
@@ -79,9 +87,10 @@ theorem ipv4Demux_whole {env : Env} {m : Machine} {lk : Link} {bytes : Bytes} {h
     rw [hihl, hfo]
     show decide (0 * 8 + (hd.totalLength - 5 * 4) > 65535 - 5 * 4) = false
     simp; omega
-  have c : ¬ bytes.length < hd.ihl * ipStripFactor := by
-    rw [hihl]; show ¬ bytes.length < 5 * 4; omega
-  rw [if_neg a, b, if_neg (by simp), if_neg c, hnone]
+  have t : ¬ bytes.length < hd.totalLength := by omega
+  have c : ¬ (bytes.take hd.totalLength).length < hd.ihl * ipStripFactor := by
+    rw [hihl, List.length_take]; show ¬ min hd.totalLength bytes.length < 5 * 4; omega
+  rw [if_neg a, b, if_neg (by simp), if_neg t, if_neg c, hnone]
 
 /-- where the datagram ends up on ONE machine: the exact binding, else the wildcard binding,
     else nowhere -/
@@ -139,7 +148,7 @@ theorem udpDemux_sent {env : Env} {m : Machine} (hm : m.dm.WF) {lk : Link} {src 
 theorem datagram_at_machine (env : Env) (m : Machine) (hm : m.dm.WF) (lk : Link) (src dst : Endpoint)
     (payload wire : Bytes) (hs : Sent env.ck src dst payload wire) :
     AtMachine env m lk src dst payload wire := by
-  obtain ⟨hd, uh, hdec, hsrc, hdst, hproto, hw, hu, hsp, hdp, hpay⟩ := sent_decodes hs
+  obtain ⟨hd, uh, hdec, hsrc, hdst, hproto, hw, hu, hsp, hdp, hpay, htot⟩ := sent_decodes hs
   have hpn : protoNumber hd.protocol = protoUdp := by rw [hproto]; rfl
   have hrecv : receive env m lk ⟨pidIpv4, wire⟩ = ipv4Demux env m lk wire := by
     unfold receive; rw [if_pos hm.hasIp, if_pos rfl]
@@ -148,7 +157,8 @@ theorem datagram_at_machine (env : Env) (m : Machine) (hm : m.dm.WF) (lk : Link)
   have viaUdp : ipv4Upstream m.dm hd.destination (protoNumber hd.protocol) = some pidUdp →
       receive env m lk ⟨pidIpv4, wire⟩ = entered pidIpv4 (udpDemux env m lk (some hd) (wire.drop 20)) := by
     intro hb
-    rw [hrecv, ipv4Demux_reaches ⟨hm.hasIp, hdec, hw, hb, hm.hasUdp⟩, if_pos rfl]
+    rw [hrecv, ipv4Demux_reaches ⟨hm.hasIp, hdec, hw, hb, hm.hasUdp, by omega⟩, if_pos rfl,
+      datagramBody_exact hd wire htot]
   unfold AtMachine
   cases h1 : lookup dst m.dm.udp with
   | some app =>
@@ -169,7 +179,7 @@ theorem datagram_at_machine (env : Env) (m : Machine) (hm : m.dm.WF) (lk : Link)
     | none =>
       dsimp only
       cases hr : ipv4Upstream m.dm hd.destination (protoNumber hd.protocol) with
-      | none => exact ⟨_, by rw [hrecv, ipv4Demux_whole hdec hw hr]⟩
+      | none => exact ⟨_, by rw [hrecv, ipv4Demux_whole hdec hw (by omega) hr]⟩
       | some u =>
         have hu' : u = pidUdp := by
           rw [hpn] at hr
@@ -262,7 +272,7 @@ theorem sent_good : Sent false src dst [0xab] goodUdp := by
   refine ⟨{ tos := 0, payloadLength := 9, identification := 0, fragmentOffset := 0, flags := 0, ttl := 30,
             protocol := 17, source := 167772162, destination := 167772161 },
     [0x45, 0, 0, 29, 0, 0, 0, 0, 30, 17, 0, 0, 10, 0, 0, 2, 10, 0, 0, 1],
-    [0x17, 0x70, 0x13, 0x88, 0, 9, 0, 0], by decide, rfl, rfl, rfl, rfl, by decide, by decide,
+    [0x17, 0x70, 0x13, 0x88, 0, 9, 0, 0], by decide, rfl, rfl, rfl, rfl, by decide, rfl, by decide,
     by decide +kernel, by decide +kernel, by decide⟩
 
 theorem m_wf : m.dm.WF := by
